@@ -581,8 +581,10 @@ class C01(ScanProperty):
     ID = 'C01'
     THEOREMS = [('Properties.C01', ['C01_longest_match_first_pattern', 'C01_priority_is_pattern_index', 'C01_stream_is_iterated_rule',
                                     'C01_skip_one_character', 'C01_lang_equiv_from_certificate', 'C01_find_equals_specification',
-                                    'C01_specification_is_maximal_candidate', 'C01_simple_builder_types', 'C01_nonvacuous'])]
-    COQ_TARGETS = ['Properties/C01.vo']
+                                    'C01_specification_is_maximal_candidate', 'C01_simple_builder_types', 'C01_nonvacuous']),
+                ('Properties.C01c', ['C01_compiled_mode_finds_specified_token', 'C01_compiled_scanner_is_specification',
+                                     'C01_terminal_ids_are_pattern_order', 'C01_capstone_nonvacuous'])]
+    COQ_TARGETS = ['Properties/C01.vo', 'Properties/C01c.vo']
     CERTS = {'quick': 40, 'thorough': 600}
 
     def explore(self, rng, tier, rdir, out, replay=None):
